@@ -787,7 +787,7 @@ func targetNames(ts []target) []string {
 
 func main() {
 	rep = evid.New("C12", "exploration")
-	rep.SetRule("case = (rule set, probe name, route); rule sets: 1-10 (sometimes up to 41) rules of the four types over the label alphabet {a b ab ba a-b xn--a com c}, derived from 1-3 pool names (itself, suffixes, +label, glued/unglued first char), random case, optional trailing dot, duplicates with other values, random default type and prefix omission; regexps from a small RE2-safe grammar; probe names = every rule +/- one label, +/- one char, one char replaced, in random case with/without trailing dot, plus random names; routes = MixMatcher.Add, its sub-matchers, standalone sub-matchers, text loader with/without values, domain_set plugin (exps+file+nested set), hosts Lookup, hosts plugin LookupMsg, redirect plugin, and per rule set one random DAG of 3-11 domain_set plugins (own exps/files or sets only, 1-8 included sets, shared included sets) built in dependency order and probed only after all are built, each against the union of its own and transitively included rules. non-trivial = at least one rule describes the name or the name is a near miss (non-boundary suffix, parent of a rule, subdomain of a full rule, rule is a prefix); distinct = (rule set, set of matching types, deciding type, number of matching domain depths, near-miss class), plus (topology, plugin) for every plugin that includes other sets. CONFIG PHASE: case = one configuration document (YAML written by an own emitter, JSON, or the decoded map) read by coremain.NewMosdns (viper include + plugin args decoder) with 1-3 domain_set plugins (exps/files/sets), hosts (entries/files), redirect (rules/files) and a sequence whose rule is a 'qname exp.. $set &file' matcher; every list option in a random spelling (block list, flow list, or one element as a bare scalar; scalars plain / single quoted / double quoted with escapes / literal block; omitted / null / [] when empty); 6-15 rules, regular expressions mostly from a grammar with counted repetitions {m,n}, classes and optional atoms containing , : # space { } [ ] quotes backslash & * ! | > % @; tags and file names with such characters; every plugin probed against the reference over exactly the rules written for it (own + included sets); non-trivial = (document, plugin, deciding type). SOURCE PHASE: case = a rule set written as text whose lines are made long (classes around 4/8/16/32 KiB, 65534..65538, up to 200 KB) by comments, trailing comments, leading/trailing/inner blanks, blank-only lines, a long regexp or literal rule, or which has thousands of short lines; LF / CRLF / CR CR LF ends, last line with/without terminator, bare CR inside comments, bare-CR files; loaded by LoadFromTextReader with and without values through readers that deliver it whole, in chunks (1..100000 bytes, empty reads, data+EOF) or fail with a non-EOF error at a line start / random offset / instead of EOF, and through the file options of domain_set, hosts, redirect and qname; verdict: refused (only allowed if the reader failed or a line has >= 65535 bytes) or answers every probe like the reference over ALL rules of the source; non-trivial = (source, route, outcome)")
+	rep.SetRule("case = (rule set, probe name, route); rule sets: 1-10 (sometimes up to 41) rules of the four types over the label alphabet {a b ab ba a-b xn--a com c}, derived from 1-3 pool names (itself, suffixes, +label, glued/unglued first char), random case, optional trailing dot, duplicates with other values, random default type and prefix omission; regexps from a small RE2-safe grammar; probe names = every rule +/- one label, +/- one char, one char replaced, in random case with/without trailing dot, plus random names; routes = MixMatcher.Add, its sub-matchers, standalone sub-matchers, text loader with/without values, domain_set plugin (exps+file+nested set), hosts Lookup, hosts plugin LookupMsg, redirect plugin, and per rule set one random DAG of 3-11 domain_set plugins (own exps/files or sets only, 1-8 included sets, shared included sets) built in dependency order and probed only after all are built, each against the union of its own and transitively included rules. non-trivial = at least one rule describes the name or the name is a near miss (non-boundary suffix, parent of a rule, subdomain of a full rule, rule is a prefix); distinct = (rule set, set of matching types, deciding type, number of matching domain depths, near-miss class), plus (topology, plugin) for every plugin that includes other sets. CONFIG PHASE: case = one configuration document (YAML written by an own emitter, JSON, or the decoded map) read by coremain.NewMosdns (viper include + plugin args decoder) with 1-3 domain_set plugins (exps/files/sets), hosts (entries/files), redirect (rules/files) and a sequence whose rule is a 'qname exp.. $set &file' matcher; every list option in a random spelling (block list, flow list, or one element as a bare scalar; scalars plain / single quoted / double quoted with escapes / literal block; omitted / null / [] when empty); 6-15 rules, regular expressions mostly from a grammar with counted repetitions {m,n}, classes and optional atoms containing , : # space { } [ ] quotes backslash & * ! | > % @; tags and file names with such characters; every plugin probed against the reference over exactly the rules written for it (own + included sets); non-trivial = (document, plugin, deciding type). SOURCE PHASE: case = a rule set written as text whose lines are made long (classes around 4/8/16/32 KiB, 65534..65538, up to 200 KB) by comments, trailing comments, leading/trailing/inner blanks, blank-only lines, a long regexp or literal rule, or which has thousands of short lines; LF / CRLF / CR CR LF ends, last line with/without terminator, bare CR inside comments, bare-CR files; loaded by LoadFromTextReader with and without values through readers that deliver it whole, in chunks (1..100000 bytes, empty reads, data+EOF) or fail with a non-EOF error at a line start / random offset / instead of EOF, and through the file options of domain_set, hosts, redirect and qname; verdict: refused (only allowed if the reader failed or a line has >= 65535 bytes) or answers every probe like the reference over ALL rules of the source; non-trivial = (source, route, outcome). CONCURRENT PHASE: case = one generated rule set loaded through every basic route (MixMatcher[int], sub-matchers, text loader with/without values, domain_set plugin, hosts Lookup, hosts plugin, redirect plugin); per route ONE instance is asked serially and then by 8 goroutines released together from a barrier, each looking up its own shuffled window (>= half) of the same ~130 names (mostly mixed/upper case, with/without trailing dot, names of up to 253 bytes, names decided by each rule type and names no rule describes) 3 times; every concurrent answer must be allowed by the reference for the name asked; overlap is counted with an in-flight counter (no clock, no race detector); non-trivial = (rule set, route, deciding types) of instances that saw overlapping lookups with both outcomes expected")
 	rep.Assume("Go's regexp package is the definition of 'match by Go regular expression' (used by the reference, on the normalised name, with the expression exactly as written)")
 	rep.Assume("generated rules and names are ASCII; lower-casing in the reference is ASCII lower-casing")
 	rep.Assume("empty patterns ('domain:.', 'keyword:.') and names with empty labels are outside the quantified space and not generated; unprefixed rules never contain ':'")
@@ -816,6 +816,24 @@ func main() {
 			os.Exit(3)
 		}
 		st := newStats()
+		if c.Phase == "concurrent" {
+			// schedule dependent: repeat until the mismatch shows again
+			o := &phaseOut{best: map[string]*phaseWitness{}}
+			for i := 0; i < 50 && len(o.best) == 0; i++ {
+				fs, bug := runGuarded(runConcCase, c.CaseSeed, dir, st)
+				o.bug = bug
+				for _, f := range fs {
+					o.best[f.Key] = &phaseWitness{f: f, n: 1}
+				}
+			}
+			o.reportConc()
+			rep.Eval(int(st.c["evaluations"]))
+			for k := range st.fp {
+				rep.Nontrivial(k)
+			}
+			cleanup()
+			rep.Finish()
+		}
 		if c.Phase == "config" || c.Phase == "source" {
 			run := runCfgCase
 			if c.Phase == "source" {
@@ -937,9 +955,13 @@ func main() {
 	cfgOut := runPhase("cfg", rep.Pick(6000, 80000), rep.Seed^0x636667, workers, dir, runCfgCase)
 	tCfg := time.Since(t0) - tBase
 	srcOut := runPhase("src", rep.Pick(3000, 30000), rep.Seed^0x737263, workers, dir, runSrcCase)
+	tSrc := time.Since(t0) - tBase - tCfg
+	// concurrent lookups on shared instances (conc.go); few cases at a time, each runs concG goroutines
+	concOut := runPhase("conc", rep.Pick(300, 6000), rep.Seed^0x636f6e, max(1, workers/concG), dir, runConcCase)
+	rep.Extra("concurrent_phase_sample", concOut.sample)
 	rep.Extra("config_phase_sample", cfgOut.sample)
 	rep.Extra("source_phase_sample", srcOut.sample)
-	rep.Extra("phase_wall_seconds", map[string]float64{"basic_routes": tBase.Seconds(), "config_documents": tCfg.Seconds(), "rule_sources": (time.Since(t0) - tBase - tCfg).Seconds()})
+	rep.Extra("phase_wall_seconds", map[string]float64{"basic_routes": tBase.Seconds(), "config_documents": tCfg.Seconds(), "rule_sources": tSrc.Seconds(), "concurrent_lookups": (time.Since(t0) - tBase - tCfg - tSrc).Seconds()})
 	cleanup()
 
 	var ws []*witness
@@ -964,8 +986,9 @@ func main() {
 	if len(ws) == 0 {
 		cfgOut.report("config")
 		srcOut.report("source")
+		concOut.reportConc()
 	} else {
-		rep.Extra("composed_phase_keys_not_reported(basic routes already disagree)", len(cfgOut.best)+len(srcOut.best))
+		rep.Extra("composed_phase_keys_not_reported(basic routes already disagree)", len(cfgOut.best)+len(srcOut.best)+len(concOut.best))
 	}
 	tot := map[string]int64{}
 	for _, st := range allStats {
@@ -973,7 +996,7 @@ func main() {
 			tot[k] += v
 		}
 	}
-	for _, o := range []*phaseOut{cfgOut, srcOut} {
+	for _, o := range []*phaseOut{cfgOut, srcOut, concOut} {
 		for k, v := range o.tot {
 			tot[k] += v
 		}
@@ -1005,6 +1028,10 @@ func main() {
 		// source phase
 		"src_attempts_with_a_line_of_64KiB_or_more",
 		"src_reader:chunked", "src_reader:failing", "src_shape:one-line-over-64KiB", "src_shape:line-at-64KiB-edge", "src_shape:lines-around-4-32KiB", "src_shape:thousands-of-short-lines", "src_shape:cr-oddities",
+		// concurrent phase
+		"conc_overlapping_lookups(started while another lookup on the same instance was in flight; lower bound)", "conc_overlapping_lookups_of_names_with_upper_case",
+		"conc_instances_with_overlap_and_both_outcomes_expected", "conc_names_with_upper_case", "conc_names_of_64_bytes_or_more",
+		"evaluations:conc-mix", "evaluations:conc-loader", "evaluations:conc-loader-novalue", "evaluations:conc-domainset", "evaluations:conc-hosts-lookup", "evaluations:conc-hosts-msg", "evaluations:conc-redirect",
 		"evaluations:src-loader", "evaluations:src-loader-novalue", "evaluations:src-domainset-file", "evaluations:src-hosts-file", "evaluations:src-redirect-file", "evaluations:src-qname-file",
 	} {
 		if tot[need] == 0 {
